@@ -53,7 +53,7 @@ Fixpoint ru_loop (T : ru_tables) (inp : bool) (ord : string → list string) (fu
       if negb (bool_decide (n ∈ dom c)) then Raise OtherError else      (* networkx: node not in graph *)
       if negb (order_ok (ord n) (fanin c n)) then BadOrder else
       let new := filter (λ fi, ru_push T inp c fi = true) (ord n) in
-      ru_loop T inp ord fuel' (remove_g c [n]) (rev new ++ rest) (removed ++ [n])
+      ru_loop T inp ord fuel' (remove_g c [n]) (reverse new ++ rest) (removed ++ [n])
     end
   end.
 
@@ -63,7 +63,7 @@ Definition remove_unloaded_with (T : ru_tables) (C : Circuit) (inp : bool) (node
   if negb (order_ok nodes (dom c)) then BadOrder else
   if bool_decide (map_Forall (λ _ i, n_ty i ≠ NoTy) c) then
     let init := filter (λ n, ru_unloaded T inp c n = true) nodes in
-    rmap (λ r, (with_g C r.1, r.2)) (ru_loop T inp ord (size c) c (rev init) [])
+    rmap (λ r, (with_g C r.1, r.2)) (ru_loop T inp ord (size c) c (reverse init) [])
   else Raise KeyError.                                                    (* Circuit.type on a node without type *)
 Definition remove_unloaded := remove_unloaded_with gen_ru_tables.
 
